@@ -92,6 +92,26 @@ struct Barrier {
       while (gen.load(std::memory_order_acquire) == g) { if (++spins > 64) sched_yield(); }
     }
   }
+  // Main thread only: the same, but gives up when the workers make no progress at all for a very long time (a case takes
+  // milliseconds). Not a decision of the property: a safety net that turns a deadlock/livelock into a reported crash.
+  void wait_watchdog(const char* what) {
+    uint32_t g = gen.load(std::memory_order_acquire);
+    if (count.fetch_add(1, std::memory_order_acq_rel) + 1 == n) {
+      count.store(0, std::memory_order_relaxed);
+      gen.store(g + 1, std::memory_order_release);
+      return;
+    }
+    int64_t t0 = now_ns();
+    unsigned spins = 0;
+    while (gen.load(std::memory_order_acquire) == g) {
+      if (++spins > 64) sched_yield();
+      if ((spins & 0xFFF) == 0 && now_ns() - t0 > int64_t(180) * 1000000000) {
+        fprintf(stderr, "C11 watchdog: worker threads did not reach the %s barrier within 180 s (deadlock or livelock inside AsmJit?)\n", what);
+        fflush(stderr);
+        _exit(96);
+      }
+    }
+  }
 };
 
 struct ThreadFail { std::string key, msg; };
@@ -99,7 +119,7 @@ struct ThreadFail { std::string key, msg; };
 struct Shared {
   const vh::Opts* opts = nullptr;
   uint32_t nthreads = 2;
-  Barrier b_start, b_audit, b_release;
+  Barrier b_start, b_audit, b_release, b_done;
   std::atomic<int> inside{0};
   std::atomic<bool> stop{false};
   bool is_known(const std::string& k) const { return opts && !opts->known_match(k).empty(); }
@@ -558,9 +578,15 @@ struct AllocThread : ThreadBase {
   }
 
   void step(const vh::Op& op, int kind) {
+    if (live.empty() && kind != K_ALLOC && kind != K_STATS) {
+      // nothing to work on yet: allocate instead (size class and init form taken from the op's arguments)
+      cls("empty_so_alloc_instead");
+      do_alloc(vh::Op{arg(op, 0), K_ALLOC, int64_t(u(arg(op, 3)) % 4), arg(op, 2) + arg(op, 4), arg(op, 3)});
+      return;
+    }
     switch (kind) {
       case K_ALLOC: do_alloc(op); break;
-      case K_RELEASE: if (live.empty()) cls("noop_empty"); else do_release(size_t(u(arg(op, 2)) % live.size()), false, "release"); break;
+      case K_RELEASE: do_release(size_t(u(arg(op, 2)) % live.size()), false, "release"); break;
       case K_SHRINK: do_shrink(op); break;
       case K_QUERY: do_query(op); break;
       case K_WRITE: do_write(op); break;
@@ -591,6 +617,7 @@ struct AllocThread : ThreadBase {
     // the main thread audits the union of the models here
     sh->b_release.wait();
     if (!sh->stop.load(std::memory_order_relaxed)) release_all();
+    sh->b_done.wait();
   }
 };
 
@@ -662,7 +689,7 @@ static void run_mode_alloc(const vh::Case& c, vh::Ctx& ctx) {
   Shared sh;
   sh.opts = ctx.opts;
   sh.nthreads = n;
-  sh.b_start.n = sh.b_audit.n = sh.b_release.n = n + 1;
+  sh.b_start.n = sh.b_audit.n = sh.b_release.n = sh.b_done.n = n + 1;
   std::vector<std::unique_ptr<AllocThread>> ths;
   for (uint32_t i = 0; i < n; i++) {
     ths.emplace_back(new AllocThread());
@@ -674,7 +701,7 @@ static void run_mode_alloc(const vh::Case& c, vh::Ctx& ctx) {
   std::vector<std::thread> threads;
   for (uint32_t i = 0; i < n; i++) threads.emplace_back([&ths, i] { ths[i]->main(); });
   sh.b_start.wait();
-  sh.b_audit.wait();
+  sh.b_audit.wait_watchdog("audit");
 
   // ---- audit: the union of the per-thread models, while every span is still live and no thread is running ----
   vh::Failure audit_fail;
@@ -716,6 +743,7 @@ static void run_mode_alloc(const vh::Case& c, vh::Ctx& ctx) {
     } catch (const vh::Failure& f) { audit_fail = f; audit_failed = true; sh.stop.store(true); }
   }
   sh.b_release.wait();
+  sh.b_done.wait_watchdog("end");
   for (auto& th : threads) th.join();
   if (audit_failed) throw audit_fail;
 
@@ -901,7 +929,7 @@ struct RuntimeThread : ThreadBase {
       cls("rt_statistics");
       return;
     }
-    if (live.empty()) { cls("noop_empty"); return; }
+    if (live.empty()) { cls("empty_so_add_instead"); do_add(vh::Op{arg(op, 0), K_ALLOC, arg(op, 2) * 7 + 1, arg(op, 2), arg(op, 2)}); return; }
     size_t idx = size_t(u(arg(op, 2)) % live.size());
     if (kind == K_RELEASE) do_release(idx, "call before release");
     else if (kind == K_QUERY) {
@@ -921,7 +949,7 @@ struct RuntimeThread : ThreadBase {
     run_script(*this, [this](const vh::Op& op, int kind) { step(op, kind); });
     sh->b_audit.wait();
     sh->b_release.wait();
-    if (sh->stop.load(std::memory_order_relaxed)) return;
+    if (sh->stop.load(std::memory_order_relaxed)) { sh->b_done.wait(); return; }
     try {
       size_t k = 0;
       while (!live.empty() && !sh->stop.load(std::memory_order_relaxed)) {
@@ -932,6 +960,7 @@ struct RuntimeThread : ThreadBase {
         k++;
       }
     } catch (const ThreadFail& f) { failed = true; fkey = f.key; fmsg = f.msg; sh->stop.store(true, std::memory_order_relaxed); }
+    sh->b_done.wait();
   }
 };
 
@@ -953,7 +982,7 @@ static void run_mode_runtime(const vh::Case& c, vh::Ctx& ctx) {
   Shared sh;
   sh.opts = ctx.opts;
   sh.nthreads = n;
-  sh.b_start.n = sh.b_audit.n = sh.b_release.n = n + 1;
+  sh.b_start.n = sh.b_audit.n = sh.b_release.n = sh.b_done.n = n + 1;
   std::vector<std::unique_ptr<RuntimeThread>> ths;
   for (uint32_t i = 0; i < n; i++) {
     ths.emplace_back(new RuntimeThread());
@@ -965,7 +994,7 @@ static void run_mode_runtime(const vh::Case& c, vh::Ctx& ctx) {
   std::vector<std::thread> threads;
   for (uint32_t i = 0; i < n; i++) threads.emplace_back([&ths, i] { ths[i]->main(); });
   sh.b_start.wait();
-  sh.b_audit.wait();
+  sh.b_audit.wait_watchdog("audit");
 
   vh::Failure audit_fail;
   bool audit_failed = false;
@@ -989,6 +1018,7 @@ static void run_mode_runtime(const vh::Case& c, vh::Ctx& ctx) {
     } catch (const vh::Failure& f) { audit_fail = f; audit_failed = true; sh.stop.store(true); }
   }
   sh.b_release.wait();
+  sh.b_done.wait_watchdog("end");
   for (auto& th : threads) th.join();
   if (audit_failed) throw audit_fail;
 
@@ -1335,6 +1365,7 @@ struct CodegenThread : ThreadBase {
     });
     sh->b_audit.wait();
     sh->b_release.wait();
+    sh->b_done.wait();
   }
 };
 
@@ -1344,7 +1375,7 @@ static void run_mode_codegen(const vh::Case& c, vh::Ctx& ctx) {
   Shared sh;
   sh.opts = ctx.opts;
   sh.nthreads = n;
-  sh.b_start.n = sh.b_audit.n = sh.b_release.n = n + 1;
+  sh.b_start.n = sh.b_audit.n = sh.b_release.n = sh.b_done.n = n + 1;
   std::vector<std::unique_ptr<CodegenThread>> ths;
   for (uint32_t i = 0; i < n; i++) { ths.emplace_back(new CodegenThread()); ths.back()->sh = &sh; ths.back()->id = i; }
   distribute(c, ths);
@@ -1371,8 +1402,9 @@ static void run_mode_codegen(const vh::Case& c, vh::Ctx& ctx) {
   std::vector<std::thread> threads;
   for (uint32_t i = 0; i < n; i++) threads.emplace_back([&ths, i] { ths[i]->main(); });
   sh.b_start.wait();
-  sh.b_audit.wait();
+  sh.b_audit.wait_watchdog("audit");
   sh.b_release.wait();
+  sh.b_done.wait_watchdog("end");
   for (auto& th : threads) th.join();
   // the reference itself must be reproducible (otherwise a difference says nothing about threads)
   for (uint32_t i = 0; i < n; i++) {
@@ -1470,7 +1502,8 @@ rc::Gen<vh::Case> vh_gen(const vh::Opts& o) {
       return op;
     });
     double k = mode == M_CODEGEN ? 0.12 * n : mode == M_RUNTIME ? 0.45 * n : 0.8 * n;
-    return gen::map(gen::scale(k, gen::container<std::vector<vh::Op>>(opGen)), [cfg](std::vector<vh::Op> ops) {
+    auto opsGen = gen::withSize([=](int size) { return gen::resize(int((size + 8) * k), gen::container<std::vector<vh::Op>>(opGen)); });
+    return gen::map(opsGen, [cfg](std::vector<vh::Op> ops) {
       vh::Case c; c.cfg = cfg; c.ops = std::move(ops); return c; });
   });
 }
